@@ -156,7 +156,7 @@ def synth_input(rng):
     peptides with 1-3 base entries whose 1-3 variant ids come from different sources, so that several entries of one peptide have
     source sets of equal size with crossing ranks; SECT / W2F ids and ORF ids of non-coding transcripts occur as well."""
     from harness.gen import refgen
-    ref = refgen.make_reference(rng, n_genes=rng.randint(2, 3), coding_p=0.6, isoforms=(1, 1), min_exons=1, max_exons=3,
+    ref = refgen.make_reference(rng, n_genes=rng.randint(2, 3), coding_p=0.6, isoforms=(1, 2), min_exons=1, max_exons=3,
                                 exon_len=(40, 100))
     c = cv.Case()
     c.ref, c.stratum = ref, 'synth'
@@ -178,6 +178,23 @@ def synth_input(rng):
             per_tx.setdefault(tx.id, []).append((v, src))
         if recs:
             files.append((f'{src}.gvf', src, recs))
+    # fusion records between any two transcripts - also two transcripts of ONE gene (intragenic fusion)
+    fus = []
+    all_t = list(ref.all_txs())
+    for _ in range(rng.randint(0, 3)):
+        t1 = rng.choice(all_t)
+        same = [t for t in t1.gene.txs if t is not t1]
+        t2 = rng.choice(same) if same and rng.random() < 0.5 else rng.choice(all_t)
+        if t2 is t1:
+            continue
+        gs1 = ref.gene_seq(t1.gene)
+        dpos = t1.tx2gene(rng.randrange(3, t1.tx_len())) + 1
+        apos = t2.tx2gene(rng.randrange(0, max(1, t2.tx_len() - 3)))
+        f_ = gvfgen.Fusion(t1.gene, t1, dpos, t2.gene, t2, apos, gs1[min(dpos, len(gs1) - 1)])
+        if all(x.id != f_.id for x in fus):
+            fus.append(f_)
+    if fus:
+        files.append(('Fusion.gvf', 'Fusion', fus))
     rng.shuffle(files)
     c.files = files
     txs = {t.id: t for t in ref.all_txs()}
@@ -191,6 +208,19 @@ def synth_input(rng):
         seen.add(seq)
         ents = []
         for _ in range(rng.choice([1, 2, 2, 3])):
+            if fus and rng.random() < 0.25:
+                f_ = rng.choice(fus)
+                ids = []
+                for side, t_ in ((1, f_.tx), (2, f_.acc_tx)):
+                    if per_tx.get(t_.id) and rng.random() < 0.5:
+                        v_, _src = rng.choice(per_tx[t_.id])
+                        ids.append(f'{side}-{v_.id}')
+                n += 1
+                fld = [f_.id] + ids
+                if not f_.tx.coding:
+                    fld.append(f'ORF{rng.randint(1, 3)}')
+                ents.append('|'.join(fld + [str(n)]))
+                continue
             cand = [t for t in per_tx if per_tx[t]]
             if not cand:
                 break
